@@ -203,6 +203,14 @@ pub fn generate(ctx: &mut Ctx, rep: &mut Report, emit: &mut dyn FnMut(&mut Ctx, 
                         0 => { let k = rng.below(40) as usize; rng.bytes(k) }
                         1 => vec![],
                         2 => { let mut b = gen_bundle(&mut rng, &Opts { wf: true, max_blocks: 4 }); let v = b.to_cbor(); crate::p_rx::mutate(&mut rng, &v) }
+                        // (every 5th time) a bundle naming an endpoint in wire form: any text, also without "//" and with multi-byte
+                        // characters at small byte offsets — the validation inside the C functions must return, not unwind
+                        3 if rng.chance(1, 5) => { let mut b = gen_valid_bundle(&mut rng);
+                               const RAW: [&str; 14] = ["/é/node1", "n€de/x", "aß", "日本/x", "nöde1//svc", "/ö/nod/svc", "€//n1/svc", "abc", "/", "", "😀/n1/svc", "a€/", "//ö", "xé"];
+                               let e = bp7::EndpointID::Dtn(1, dtn_address(rng.pick(&RAW).as_bytes()).unwrap());
+                               match rng.below(4) { 0 => b.primary.destination = e, 1 => b.primary.source = e, 2 => b.primary.report_to = e,
+                                   _ => b.canonicals.insert(0, bp7::canonical::new_canonical_block(6, 77, 0, bp7::canonical::CanonicalData::PreviousNode(e))) }
+                               b.to_cbor() }
                         // the outer array in definite-length form, announcing the true, a boundary or an absurd number of blocks
                         3 => { let mut b = gen_valid_bundle(&mut rng); let v = b.to_cbor(); crate::p_rx::outer_definite(&mut rng, &v) }
                         _ => { let mut b = gen_valid_bundle(&mut rng);
